@@ -1174,10 +1174,29 @@ impl Vm {
                         strfmt::FmtError::KeyError(_) => unreachable!(),
                     };
 
+                    // Widths and precisions beyond u16::MAX make the formatting machinery
+                    // panic (or allocate gigabytes of padding): reject them up front.
+                    let check_format_specifiers = |this: &Self, specifiers: &str| {
+                        let out_of_range = specifiers
+                            .split(|c: char| !c.is_ascii_digit())
+                            .any(|n| !n.is_empty() && n.parse::<u16>().is_err());
+                        if out_of_range {
+                            Err(Box::new(this.runtime_error(
+                                RuntimeErrorKind::InvalidFormatSpecifiers(format!(
+                                    "width or precision out of range in '{specifiers}'"
+                                )),
+                            )))
+                        } else {
+                            Ok(())
+                        }
+                    };
+
                     for _ in 0..num_parts {
                         let part = match self.pop() {
                             Value::FormatSpecifiers(Some(specifiers)) => match self.pop() {
                                 Value::Quantity(q) => {
+                                    check_format_specifiers(self, &specifiers)?;
+
                                     let q =
                                         self.simplify_quantity(&q, ctx.unit_name_to_constant_idx);
 
@@ -1204,6 +1223,8 @@ impl Vm {
                                     str
                                 }
                                 value => {
+                                    check_format_specifiers(self, &specifiers)?;
+
                                     let mut vars = HashMap::new();
                                     vars.insert(
                                         "value".to_owned(),
